@@ -35,7 +35,7 @@ func init() {
 		Run: run,
 		Floors: func(t string) map[string]int64 {
 			return map[string]int64{"api.struct": 100, "api.fields": 100, "kind.Point": 8, "kind.MultiPoint": 8, "kind.LineString": 8, "kind.MultiLineString": 8, "kind.Polygon": 8, "kind.*Bounds": 8,
-				"records.compared": 3000, "string.last_column": 50, "string.with_edge_blanks": 200, "ring.unclosed": 200, "ring.unclosed_by_a_hair": 100, "file.empty": 3, "column.string": 100, "column.int": 100, "column.float": 100, "string.at_field_width": 20, "schema.crossed_tags_and_names": 20, "decode.alternating_record_types": 30, "box.degenerate": 50, "schema.eleven_byte_names_sharing_ten": 20, "schema.names_longer_than_the_dbf_field": 20, "schema.long_name_cut_inside_a_two_byte_letter": 8, "file.more_than_1000_records": 1}
+				"records.compared": 3000, "string.last_column": 50, "string.with_edge_blanks": 200, "ring.unclosed": 200, "ring.unclosed_by_a_hair": 100, "file.empty": 3, "column.string": 100, "column.int": 100, "column.float": 100, "string.at_field_width": 20, "schema.crossed_tags_and_names": 20, "decode.alternating_record_types": 30, "box.degenerate": 50, "schema.eleven_byte_names_sharing_ten": 20, "schema.names_longer_than_the_dbf_field": 20, "schema.long_name_cut_inside_a_two_byte_letter": 8, "schema.tag_names_no_column_but_the_field_name_does": 100, "file.more_than_1000_records": 1}
 		},
 	})
 }
@@ -265,7 +265,12 @@ func genColumns(r *gen.R) []column {
 			col.dbf = base
 		}
 		// decode side: different case, tag or bare name
-		switch r.Intn(3) {
+		switch r.Intn(4) {
+		case 3:
+			// a tag that names no attribute of the file on a field whose name does (up to case):
+			// "matched by tag or name" - the name then decides
+			col.decName, col.decTag = strings.ToUpper(col.dbf[:1])+strings.ToLower(col.dbf[1:]), "q"+strconv.Itoa(len(cols))+"zz"
+			tagMiss = true
 		case 0:
 			col.decName, col.decTag = "X"+base, strings.ToUpper(col.dbf)
 		case 1:
@@ -336,7 +341,7 @@ func genColumns(r *gen.R) []column {
 }
 
 // crossed / longNames report what the last genColumns call produced.
-var crossed, longNames, longerNames, cutInRune bool
+var crossed, longNames, longerNames, cutInRune, tagMiss bool
 
 func goType(kind string) reflect.Type {
 	switch kind {
@@ -380,10 +385,13 @@ func run(c *core.Ctx, idx int) {
 	r := c.R
 	kind := kinds[r.Intn(len(kinds))]
 	structAPI := r.Bool()
-	crossed, longNames, longerNames, cutInRune = false, false, false, false
+	crossed, longNames, longerNames, cutInRune, tagMiss = false, false, false, false, false
 	cols := genColumns(r)
 	if longNames {
 		c.Count("schema.eleven_byte_names_sharing_ten")
+	}
+	if tagMiss {
+		c.Count("schema.tag_names_no_column_but_the_field_name_does")
 	}
 	if cutInRune {
 		c.Count("schema.long_name_cut_inside_a_two_byte_letter")
